@@ -14,7 +14,7 @@ WATCHDOG = {"quick": 1800, "thorough": 10800}
 CASES = {"quick": 70, "thorough": 900}
 FLOORS = {
     "quick": {"distinct_nontrivial": 250, "scorer_pairs": 800, "detector_pairs": 200,
-              "pairs[permute]": 200, "pairs[shift]": 150, "pairs[scale]": 40, "pairs[reverse]": 150,
+              "pairs[permute]": 200, "pairs[shift]": 150, "pairs[scale]": 40, "pairs[reverse]": 1000,
               "discrete_outputs_compared": 120},
     "thorough": {"distinct_nontrivial": 5000, "scorer_pairs": 15000, "detector_pairs": 8000},
 }
@@ -404,6 +404,23 @@ def make_det_recipe(rng, tier):
     return {"kind": "detector", "det": spec, "X": X, "T": random_T(rng, kind, p)}
 
 
+def make_pelt_reversal_recipe(rng, tier):
+    """Short noisy series, low penalties, min_segment_length >= 2: where PELT's pruning decisions are
+    close, so that a scan-direction dependence of the optimum becomes visible."""
+    p = int(rng.integers(1, 3))
+    msl = int(rng.integers(2, 6))
+    n = int(rng.integers(2 * msl + 2, 40))
+    if rng.random() < 0.5:
+        X = rng.integers(-3, 4, size=(n, p)).astype(float)
+    else:
+        X, _ = gen_data(rng, n, p, ["noise", "weak_changes", "small_alphabet"][int(rng.integers(3))])
+    spec = S("PELT", cost=[None, S("L2Cost", param=None), S("GaussianVarCost", param=None)][int(rng.integers(3))],
+             penalty_scale=float(rng.choice([0.0, 0.02, 0.05, 0.1, 0.3, 0.6])), min_segment_length=msl)
+    if spec["kw"]["cost"] and spec["kw"]["cost"]["cls"] == "GaussianVarCost":
+        X = X + 0.05 * rng.standard_normal(X.shape)
+    return {"kind": "detector", "det": spec, "X": X, "T": {"kind": "reverse"}}
+
+
 def make_scorer_recipe(rng, tier):
     name = SCORER_NAMES[int(rng.integers(len(SCORER_NAMES)))]
     p = int(rng.integers(2, 6))
@@ -421,6 +438,8 @@ def run(ctx):
         exec_case(ctx, make_det_recipe(ctx.rng, ctx.tier))
     for _ in range(CASES[ctx.tier] * 6):
         exec_case(ctx, make_scorer_recipe(ctx.rng, ctx.tier))
+    for _ in range(CASES[ctx.tier] * 4):
+        exec_case(ctx, make_pelt_reversal_recipe(ctx.rng, ctx.tier))
 
 
 def replay(ctx, sub, recipe):
